@@ -52,7 +52,9 @@ Definition case_line_as (grouped : bool) (id : string) (u : string * ty) : strin
   let files := join "," (sort_strs (map (fun n => lower_str (n_name n) ++ "_ins.go") an)) in
   let xa := join "," (sort_strs (map (fun n => lower_str (n_name n) ++ ":" ++ hash_text (xml n)) an)) in
   let xl := join "," (sort_strs (map (fun n => lower_str (n_name n) ++ ":" ++ hash_text (xml n)) ln)) in
-  let model := "gen=ok;files=" ++ files ++ ";fmt=ok;build=ok;iface=ok;xmlast=" ++ xa ++ ";xmlpkg=" ++ xl ++ ";det=ok;tgt=ok" in
+  (* the multi-field and grouped units are generated a second time by a process that has generated nothing else *)
+  let hist := match id with String "M" _ | String "G" _ => ";hist=ok" | _ => "" end in
+  let model := "gen=ok;files=" ++ files ++ ";fmt=ok;build=ok;iface=ok;xmlast=" ++ xa ++ ";xmlpkg=" ++ xl ++ ";det=ok;tgt=ok" ++ hist in
   id ++ tab ++ unit_tags body ++ (if grouped then ",grouped" else "") ++ tab ++ pkg ++ ";" ++ root ++ ";" ++ hex_of_bytes (bytes_of_string src) ++ tab ++
   (if sup_root body then model else "?") ++ tab ++ model.
 
